@@ -23,7 +23,7 @@ RULE = ("schemas over every field family including nested schemas, config-type f
         "inspect.signature(function) minus its first parameter, nothing is written to stdout (captured at file-"
         "descriptor level and through sys.stdout), schema fingerprint and configuration snapshot unchanged; "
         "non-trivial = >= 3 fields and (>= 1 method or virtual field or nested part); distinct = distinct schema")
-REQUIRED = ("schemas_with_soft_keyword_names", "calls_without_class_name", "schemas_with_long_declaration", "input:nested-schema", "input:nested-config", "bare:empty", "bare:virtual", "bare:methods", "bare:both", "repeat_generations_compared", "dynamic_config_with_adhoc_field", "stubs_parsed", "attribute_sets_compared", "init_signatures_compared", "method_signatures_compared",
+REQUIRED = ("decorated_methods_compared", "virtual_getters_with_string_annotations", "schemas_with_soft_keyword_names", "calls_without_class_name", "schemas_with_long_declaration", "input:nested-schema", "input:nested-config", "bare:empty", "bare:virtual", "bare:methods", "bare:both", "repeat_generations_compared", "dynamic_config_with_adhoc_field", "stubs_parsed", "attribute_sets_compared", "init_signatures_compared", "method_signatures_compared",
             "stdout_captures", "side_effect_checks", "input:schema", "input:config", "input:configtype",
             "methods_with_return_annotation", "schemas_with_configtype_field")
 ASSUMPTIONS = ["functions always name their first (configuration) parameter; positional-only parameters are not generated"]
@@ -61,6 +61,12 @@ def gen_method(rng, key):
         parts.append("**" + rng.choice(["kwargs", "extra"]))
     ret = rng.choice(RETURNS)
     src = "def f(%s)%s:\n    return None\n" % (", ".join(parts), ret)
+    if rng.random() < 0.15:
+        # a decorated function: what is bound (and called) is the wrapper, whose parameters differ from the wrapped one's
+        src = ("import functools\n" + src.replace("def f(", "def _inner(", 1) +
+               "def _deco(fn):\n    @functools.wraps(fn)\n    def wrapper(cfg, *items, retries=3, **options):\n        return None\n"
+               "    return wrapper\nf = _deco(_inner)\n")
+        return {"kind": "field", "key": key, "family": "method", "params": {"source": src, "fname": "f", "ret": bool(ret), "wrapped": True}}
     return {"kind": "field", "key": key, "family": "method", "params": {"source": src, "fname": "f", "ret": bool(ret)}}
 
 
@@ -75,7 +81,11 @@ def generate(rng, ctx):
     extra = gen.pick_keys(rng, 9, avoid={ch["key"] for ch in schema["fields"]})
     for _ in range(rng.choice([0, 1, 2]) if not bare else {"empty": 0, "virtual": 2, "methods": 0, "both": 1}[bare]):
         schema["fields"].insert(rng.randrange(len(schema["fields"]) + 1),
-                                {"kind": "field", "key": extra.pop(), "family": "virtual", "params": {"returns": "v", "setter": rng.random() < 0.3}})
+                                {"kind": "field", "key": extra.pop(), "family": "virtual",
+                                 "params": {"returns": "v", "setter": rng.random() < 0.3,
+                                            # a getter written as a def with a return annotation that cannot be resolved at run
+                                            # time (a name imported under TYPE_CHECKING only), or that can
+                                            "ret_annotation": rng.choice([None, None, "'Decimal'", "'os.PathLike[str]'", "int", "'NoSuchType'"])}})
     for _ in range(rng.choice([0, 1, 2, 3]) if not bare else {"empty": 0, "virtual": 0, "methods": 2, "both": 1}[bare]):
         schema["fields"].insert(rng.randrange(len(schema["fields"]) + 1), gen_method(rng, extra.pop()))
     if rng.random() < 0.2 and not bare:
@@ -167,6 +177,9 @@ def run(case, ctx, res):
         res.count("schemas_with_long_declaration")
     if case["schema"].get("soft_keyword_names"):
         res.count("schemas_with_soft_keyword_names")
+    if any(ch["kind"] == "field" and ch["family"] == "virtual" and str(ch["params"].get("ret_annotation") or "").startswith("'")
+           for ch in case["schema"]["fields"]):
+        res.count("virtual_getters_with_string_annotations")
     cfg = schema()
     if root.get("dynamic"):
         # fields added on the fly to a dynamic configuration stay with that configuration
@@ -298,7 +311,9 @@ def run(case, ctx, res):
             return
         glb = {"typing": __import__("typing"), "Outer": spec.Outer, "LocalCls": spec.LOCAL_CLS}
         exec(m["params"]["source"], glb)  # noqa: S102
-        sig = inspect.signature(glb["f"])
+        sig = inspect.signature(glb["f"], follow_wrapped=False)
+        if m["params"].get("wrapped"):
+            res.count("decorated_methods_compared")
         params = list(sig.parameters.values())[1:]
         want = {
             "pos": [p.name for p in params if p.kind == p.POSITIONAL_OR_KEYWORD],
